@@ -1,15 +1,20 @@
 (** C11 - Allocation keys are unambiguous and the API releases what it lists.
     Property theorems only; proofs are in Proofs/KeysP.v and Proofs/PageP.v.
-    [cur_kflags] is the model variant that the correspondence check ties to /repo's current tree. *)
-From Coq Require Import List NArith.
+    [cur_kflags] is the model variant that the correspondence check ties to /repo's current tree
+    (both repairs applied: F5 013594f, F6 d6ba6ca); the theorems are about it. *)
+From Coq Require Import List String NArith Permutation Sorted.
+Open Scope string_scope.
 From Galaxy.Base Require Import Strs.
 From Galaxy.Model Require Import Keys Page IpApi.
-From Galaxy.Proofs Require Import KeysP.
+From Galaxy.Proofs Require Import KeysP PageP.
 Import ListNotations.
 
-(** distinct pods map to distinct keys: for pods whose namespace, pod name and owner name are
-    non-empty and '_'-free (weaker than DNS-1123), with ANY owner kind (or none) and ANY pool
-    annotation, equal keys imply equal (namespace, app, pod name) *)
+(** Hypotheses on names are WEAKER than DNS-1123: [name_ok s] = non-empty and '_'-free;
+    [owners_ok] = owner names are name_ok; [kind_free]/[kind_nonempty] = owner kinds are '_'-free /
+    non-empty; [pool_ok] = the pool annotation's value is '_'-free (may be absent = empty). *)
+
+(** distinct pods map to distinct keys: with ANY owner kind (or none) and ANY pool annotation,
+    equal keys imply equal (namespace, app, pod name) *)
 Theorem key_injective : forall p q kp kq,
   format_key p = Some kp -> format_key q = Some kq ->
   name_ok (pd_ns p) -> name_ok (pd_name p) -> owners_ok p ->
@@ -19,10 +24,119 @@ Theorem key_injective : forall p q kp kq,
 Proof. exact key_injective_l. Qed.
 Print Assumptions key_injective.
 
-(** a key decodes back to exactly the pool, type prefix, namespace, app and pod it was built from,
-    when additionally the owner kind and the pool annotation are '_'-free *)
+(** a key decodes back to exactly the pool, type prefix, namespace, app and pod it was built from.
+    FULL statement of the property text: for any pool name.  It is refuted for pool names containing
+    '_' (parse_format_refuted_pool_underscore, open known finding K4); proved under [pool_ok]. *)
 Theorem parse_format : forall p k,
   format_key p = Some k -> name_ok (pd_ns p) -> name_ok (pd_name p) -> owners_ok p -> kind_free p -> pool_ok p ->
   parse_key (ko_key k) = k.
 Proof. exact parse_format_l. Qed.
 Print Assumptions parse_format.
+
+(** every key IPAM stores for a pod (the pod's key, its pool prefix, its app prefix) is listed as
+    an entry which, posted back, addresses exactly that key *)
+Theorem list_release_roundtrip : forall p k,
+  format_key p = Some k -> name_ok (pd_ns p) -> name_ok (pd_name p) -> owners_ok p ->
+  kind_free p -> kind_nonempty p -> pool_ok p ->
+  forall key, In key [ko_key k; pool_prefix k; pool_app_prefix k] ->
+  release_key cur_kflags (convert key) = key.
+Proof. exact list_release_roundtrip_l. Qed.
+Print Assumptions list_release_roundtrip.
+
+(** app type omitted means statefulset, for every posted entry *)
+Theorem blank_type_is_statefulset : forall e,
+  release_key cur_kflags (blank_type e) = gen_key sts_pfx (e_ns e) (e_app e) (e_pod e) (e_pool e) /\
+  release_key cur_kflags (blank_type e) =
+  release_key cur_kflags {| e_ns := e_ns e; e_app := e_app e; e_pod := e_pod e; e_pool := e_pool e;
+                            e_type := L "statefulset" |}.
+Proof. exact blank_type_is_statefulset_l. Qed.
+Print Assumptions blank_type_is_statefulset.
+
+(** a POST frees an IP only if the IP's current key is the key the entry denotes (for either
+    variant of the flags, any entry, any lister state) *)
+Theorem release_exact : forall fl e cur found,
+  api_release fl e cur found = RReleased -> cur = Some (release_key fl e).
+Proof. exact release_exact_l. Qed.
+Print Assumptions release_exact.
+
+(** ... hence never another owner's IP: the listed entry of pod q's key, posted against an IP that
+    currently belongs to pod p, releases it only if p and q are the same (namespace, app, pod) *)
+Theorem release_exact_owner : forall p kp q kq found,
+  format_key p = Some kp -> name_ok (pd_ns p) -> name_ok (pd_name p) -> owners_ok p ->
+  format_key q = Some kq -> name_ok (pd_ns q) -> name_ok (pd_name q) -> owners_ok q ->
+  kind_free q -> kind_nonempty q -> pool_ok q ->
+  api_release cur_kflags (convert (ko_key kq)) (Some (ko_key kp)) found = RReleased ->
+  pd_ns p = pd_ns q /\ ko_app kp = ko_app kq /\ pd_name p = pd_name q.
+Proof. exact release_exact_owner_l. Qed.
+Print Assumptions release_exact_owner.
+
+(** paging: for every list, every size in [1, 9999] and up to the documented cap of 100000 pages,
+    the pages 0 .. totalPages-1, requested by their decimal number, concatenate to the list itself
+    (so every element appears exactly once, in order) *)
+Theorem pages_partition : forall (A : Type) (l : list A) (size : N),
+  (1 <= size <= 9999)%N -> (N.of_nat (List.length l) <= 100000 * size)%N ->
+  List.concat (map (fun n => request_page n size l) (nrange (total_pages size (N.of_nat (List.length l))))) = l.
+Proof. exact @pages_partition_l. Qed.
+Print Assumptions pages_partition.
+
+(** ... and every page number from totalPages up to the cap 99999 is empty *)
+Theorem pages_beyond_empty : forall (A : Type) (l : list A) (size n : N),
+  (1 <= size <= 9999)%N -> (total_pages size (N.of_nat (List.length l)) <= n)%N -> (n <= 99999)%N ->
+  request_page n size l = [].
+Proof. exact @pages_beyond_empty_l. Qed.
+Print Assumptions pages_beyond_empty.
+
+(** the list that is paged - all selected entries sorted by IP text - contains every selected
+    entry exactly once, neighbours in non-descending order *)
+Theorem sort_by_ip_permutation : forall (l : list (str * entry)),
+  Permutation (sort_by fst l) l /\ LocallySorted (key_le fst) (sort_by fst l).
+Proof. intros l. split; [apply sort_perm_l|apply sort_sorted_l]. Qed.
+Print Assumptions sort_by_ip_permutation.
+
+(** the hypotheses are met by a concrete non-trivial pod (63-byte deployment name, 63-byte pod
+    name, pool annotation) *)
+Example hypotheses_nonvacuous :
+  exists k, format_key pod_example = Some k /\ name_ok (pd_ns pod_example) /\ name_ok (pd_name pod_example) /\
+            owners_ok pod_example /\ kind_free pod_example /\ kind_nonempty pod_example /\ pool_ok pod_example /\
+            ko_app k = L "dp1234567890dp1234567890dp1234567890dp1234567890dp1234567890dp1" /\
+            List.length (ko_key k) = 156%nat.
+Proof. exact example_pod_ok. Qed.
+
+(** K4 (open known finding): a pool annotation containing '_' refutes parse_format and the round trip *)
+Theorem parse_format_refuted_pool_underscore :
+  exists p k, format_key p = Some k /\ name_ok (pd_ns p) /\ name_ok (pd_name p) /\ owners_ok p /\ kind_free p /\
+              ko_key k = L "pool__my_pool_dp_ns1_dp_dp-abc-x" /\ ko_pool k = L "my_pool" /\
+              ko_pool (parse_key (ko_key k)) = L "my" /\ ko_app (parse_key (ko_key k)) = [] /\
+              parse_key (ko_key k) <> k.
+Proof. exact parse_format_refuted_pool_underscore_l. Qed.
+Print Assumptions parse_format_refuted_pool_underscore.
+
+Theorem list_release_refuted_pool_underscore :
+  exists p k, format_key p = Some k /\ name_ok (pd_ns p) /\ name_ok (pd_name p) /\ owners_ok p /\
+              release_key cur_kflags (convert (ko_key k)) = L "pool__my_" /\
+              release_key cur_kflags (convert (ko_key k)) <> ko_key k.
+Proof. exact list_release_refuted_pool_underscore_l. Qed.
+Print Assumptions list_release_refuted_pool_underscore.
+
+(** Defects of the pinned commit, repaired by `fix:` commits; the witnesses are corpus cases.
+    F5: without the else, the blanked entry of a statefulset pod addresses "_ns1_sts_sts-0" and is
+    refused as "allocated to another pod" *)
+Theorem list_release_refuted_omitted_type :
+  exists p k, format_key p = Some k /\
+              release_key {| f5_omitted_is_sts := false; f6_null_exact := true |} (blank_type (convert (ko_key k)))
+              = L "_ns1_sts_sts-0" /\
+              gen_key sts_pfx (L "ns1") (L "sts") (L "sts-0") [] = ko_key k /\
+              api_release {| f5_omitted_is_sts := false; f6_null_exact := true |}
+                          (blank_type (convert (ko_key k))) (Some (ko_key k)) false = ROther.
+Proof. exact list_release_refuted_omitted_type_l. Qed.
+Print Assumptions list_release_refuted_omitted_type.
+
+(** F6: the listed entry of a pod without owner (appType "NULL") addresses "null_ns1_NULL_bare-0" *)
+Theorem list_release_refuted_null_type :
+  exists p k, format_key p = Some k /\ ko_key k = L "NULL_ns1_NULL_bare-0" /\
+              release_key {| f5_omitted_is_sts := true; f6_null_exact := false |} (convert (ko_key k))
+              = L "null_ns1_NULL_bare-0" /\
+              api_release {| f5_omitted_is_sts := true; f6_null_exact := false |}
+                          (convert (ko_key k)) (Some (ko_key k)) false = ROther.
+Proof. exact list_release_refuted_null_type_l. Qed.
+Print Assumptions list_release_refuted_null_type.
